@@ -219,12 +219,12 @@ def r08c(chk, rid='R08.c'):
     from sa.absint import Evaluator, Obj, Raised, Record
 
     n_bad = []
-    for obj, a, b in (('a\xe9b', 1, 2), ('\u20ac\U0001f600x', 0, 2), ('abc', 1, 1), ('\x7f\xff', 0, 2)):
+    for obj, a, b in (('a\xe9b', 1, 2), ('\u20ac\U0001f600x', 0, 2), ('abc', 1, 1), ('\x7f\xff', 0, 2), ('a\xe9\nb', 1, 2), ('\xe9\r\n', 0, 1), ('\xe9\f', 0, 1), ('\xe9 x', 0, 1), ('\xe9\tx', 0, 1), ('\xe9', 0, 1)):
         got = Evaluator(fe, module=m).run(e=Record(object=obj, start=a, end=b))
         want = (''.join('\\%X ' % ord(c) for c in obj[a:b]), b)
         if got != want:
             n_bad.append(f'{obj[a:b]!r} -> {got!r}, prescribed {want!r}')
-    chk.ob(rid, SER, '_escapecss', 'one upper-case hex escape per character of e.object[e.start:e.end], each terminated by a space; resumes at e.end (by evaluation)', not n_bad, '; '.join(n_bad))
+    chk.ob(rid, SER, '_escapecss', 'one upper-case hex escape per character of e.object[e.start:e.end], each terminated by a space whatever follows the span - a line break behind the escape would otherwise be swallowed as its terminator on reparse; resumes at e.end (by evaluation)', not n_bad, '; '.join(n_bad))
     # target encoding of the serialised sheet
     ds = m.get('CSSSerializer.do_CSSStyleSheet')
     K = dict(NAMESPACE_RULE=10, CHARSET_RULE=2)
